@@ -25,6 +25,7 @@ use rust_dsymbols::covers::covers;
 use rust_dsymbols::delaney2d::toroidal_cover;
 use rust_dsymbols::delaney3d::pseudo_toroidal_cover;
 use rust_dsymbols::dsets::DSet;
+use rust_dsymbols::dsyms::SimpleDSym;
 use std::panic::{catch_unwind, AssertUnwindSafe};
 use verif_harness::d3gen::{
     automorphisms, classes, corpus, curvature2, euclidean_2d, in_domain_3d, is_oriented, labelled, mirror_prisms,
@@ -37,6 +38,14 @@ fn tor2(ctx: &mut Ctx, s: &Tab, extra: &str) {
     let nontrivial = !is_oriented(s) || (0..2).any(|i| (1..=s.size).any(|d| s.v[i][d] > 1));
     let tag = format!("{}dim=2 size={} {}", if nontrivial { "nt " } else { "" }, s.size, extra);
     ctx.case("tor2", &tag, || s.enc(), || Tab::from_dsym(&toroidal_cover(&s.to_partial_dsym())).enc());
+    // the same symbol held as SimpleDSym (toroidal_cover is generic over the DSym trait; a defect can
+    // sit in one impl only — lesson of seeded change C03-m8): every third symbol
+    if s.size % 3 == 1 {
+        ctx.case("tor2_s", &tag, || s.enc(), || {
+            let ds: SimpleDSym = s.to_partial_dsym().into();
+            Tab::from_dsym(&toroidal_cover(&ds)).enc()
+        });
+    }
 }
 
 fn ptc_answer(s: &Tab) -> Option<Tab> {
@@ -58,6 +67,18 @@ fn ptc(ctx: &mut Ctx, op: &str, s: &Tab, extra: &str) {
     ctx.case(op, &tag, || s.enc(), || match ptc_answer(s) {
         Some(c) => format!("1 {}", c.enc()),
         None => "0".to_string(),
+    });
+}
+
+/// `ptc` asked of the same symbol held as SimpleDSym (a sample)
+fn ptc_simple(ctx: &mut Ctx, s: &Tab, extra: &str) {
+    let tag = format!("nt dim=3 size={} simple {}", s.size, extra);
+    ctx.case("ptc_s", &tag, || s.enc(), || {
+        let ds: SimpleDSym = s.to_partial_dsym().into();
+        match pseudo_toroidal_cover(&ds).map(|c| Tab::from_dsym(&c)) {
+            Some(c) => format!("1 {}", c.enc()),
+            None => "0".to_string(),
+        }
     });
 }
 
@@ -157,6 +178,7 @@ fn main() {
     // (1) the known-euclidean corpus: a cover must be found; invariance with 3 renumberings
     for s in corpus() {
         ptc(&mut ctx, "ptc_corpus", &s, "corpus");
+        ptc_simple(&mut ctx, &s, "corpus");
         let vs = variants(&s, &mut rng, 3);
         ptcinv(&mut ctx, &vs, "corpus");
         if th {
@@ -208,6 +230,9 @@ fn main() {
                 }
                 let extra = if n <= nfull { "exhaustive" } else { "sampled" };
                 ptc(&mut ctx, "ptc", &s, extra);
+                if serial % 5 == 0 {
+                    ptc_simple(&mut ctx, &s, extra);
+                }
                 let vs = variants(&s, &mut rng, nren);
                 ptcinv(&mut ctx, &vs, extra);
                 if th && n <= 3 {
